@@ -103,7 +103,7 @@ def evalStateless (req : List String) : Option (Obs × Option Obs) :=
       some (← modelConsts t, specConsts t)
   | ["cnconst", i] => do
       let i ← nat? i
-      some (← modelCnConst i, modelCnConst i)
+      some (← modelCnConst i, specCnConst i)
   | ["tu", f, x, y, z] => do
       let (x, y, z) := (← nat? x, ← nat? y, ← nat? z)
       some (← modelTu f x y z, specTu f x y z)
